@@ -7,6 +7,7 @@ cd /repo || exit 2
 git apply "$patch" || { echo "patch does not apply" >&2; exit 2; }
 trap 'git -C /repo checkout -- . ; git -C /repo clean -fdq src; find /verif/replays -name "found-*" -newer /tmp/.seeded_stamp -delete 2>/dev/null' EXIT
 touch /tmp/.seeded_stamp
+export TACHECK_EVIDENCE_DIR=/tmp/seeded-evidence; mkdir -p $TACHECK_EVIDENCE_DIR
 caught=""
 for id in $ids; do
   out=$(cd /verif && ./check "$id" --no-regress 2>&1); c=$?
